@@ -615,7 +615,7 @@ package moss
 // (for a partial compaction the file it writes to is the live data file);
 // a failed full compaction schedules the file it started for removal.
 //@ func (s *Store) compact(footer *Footer, partialCompactStart int, higher Snapshot, persistOptions StorePersistOptions) error
-//@   props C18 C06 C07 C15 C04 C05 C11 C12
+//@   props C18 C06 C07 C15 C04 C05 C11 C12 C08
 //@   attr obligations call-requires ensures
 //@   attr only-labels unpublished notReadOnly readOnlyFlag liveKept cleanup wholeFooterWritten
 //@   requires @notReadOnly !readOnlyMode()
@@ -627,7 +627,7 @@ package moss
 
 //@ func (s *Store) compactMaybe(higher Snapshot, persistOptions StorePersistOptions) (bool, error)
 //@   dead footer, err := s.snapshot()
-//@   props C18 C06 C04 C05 C07 C11 C12 C15
+//@   props C18 C06 C04 C05 C07 C11 C12 C15 C08
 //@   attr obligations call-requires ensures
 //@   attr only-labels unpublished notReadOnly readOnlyFlag modeLinked
 //@   requires @modeLinked s != nil && s.options != nil && readOnlyMode() == s.options.CollectionOptions.ReadOnly
@@ -659,13 +659,14 @@ package moss
 //@ func (s *Store) snapshotRevert(revertTo Snapshot) error
 //@   props C18 C12
 //@   attr obligations call-requires ensures
-//@   attr only-labels notReadOnly readOnlyFlag modeLinked same history current
+//@   attr only-labels notReadOnly readOnlyFlag modeLinked same history current durable
 //@   requires s != nil && s.options != nil && readOnlyMode() == s.options.CollectionOptions.ReadOnly
 //@   requires typeIs(revertTo, "*Footer") ==> footerDepth(ptrOf(revertTo, "*Footer")) == 0 && (ptrOf(revertTo, "*Footer") == s.footer ==> s.footer.refs >= 2)
 //@   modifies s.footer, s.totPersists, heap(Footer.fileName), heap(Footer.filePos), heap(Footer.PrevFooterOffset), heap(Footer.refs), heap(Footer.SegmentLocs), heap(Footer.ss), heap(Footer.ChildFooters), heap(mmapRef.refs), heap(mmapRef.buf), heap(mmapRef.fref), heap(mmapRef.mm), heap(FileRef.refs), heap(FileRef.file), heap(FileRef.beforeCloseCallbacks), heap(FileRef.afterCloseCallbacks), ioFailed
 //@   ensures @current result == nil ==> s.footer != nil && fresh(s.footer)
 //@   ensures @same result == nil ==> typeIs(revertTo, "*Footer") && sameLocs(s.footer, ptrOf(revertTo, "*Footer"))
 //@   ensures @history result == nil && old(s.footer) != nil ==> s.footer.PrevFooterOffset == old(s.footer.filePos)
+//@   ensures @durable result == nil ==> !unsynced
 
 // The background persister (which hands snapshots to LowerLevelUpdate) and the
 // merger only run on collections that are not ReadOnly.
@@ -675,7 +676,7 @@ package moss
 // section moves to the clean slot only when CachePersisted, and the result
 // becomes the lower level; the cached snapshot is dropped.
 //@ func (m *collection) runPersister()
-//@   props C13 C18 C16 C01 C03 C04 C15
+//@   props C13 C18 C16 C01 C03 C04 C15 C20
 //@   attr obligations lock-inv region guarded lock inv-entry inv-preserve
 //@   requires @notReadOnly !readOnlyMode()
 //@   requires m != nil && m.options != nil && !held(m.m) && m.stats != nil
@@ -896,9 +897,10 @@ package moss
 //@   ensures @children err == nil ==> (forall c string :: has(revertToFooter.ChildFooters, c) ==> has(rv.ChildFooters, c) && sameLocs(rv.ChildFooters[c], revertToFooter.ChildFooters[c]))
 //@   ensures @noOthers err == nil ==> (forall c string :: has(rv.ChildFooters, c) ==> has(revertToFooter.ChildFooters, c))
 //@   ensures @incar err == nil ==> rv.incarNum == revertToFooter.incarNum
+//@   ensures @stack err == nil ==> rv.ss == old(revertToFooter.ss) && rv.refs == 1
 //@   loop 1: modifies footer.ChildFooters, heap(mmapRef.refs), heap(mmapRef.buf), heap(mmapRef.fref), heap(mmapRef.mm), heap(FileRef.refs), heap(FileRef.file), heap(FileRef.beforeCloseCallbacks), heap(FileRef.afterCloseCallbacks), ioFailed
 //@   loop 1: invariant forall g *Footer :: g.refs == old(g.refs) && g.SegmentLocs == old(g.SegmentLocs) && g.ChildFooters == old(g.ChildFooters) && g.ss == old(g.ss)
-//@   loop 1: invariant footer != nil && fresh(footer) && sameLocs(footer, revertToFooter)
+//@   loop 1: invariant footer != nil && fresh(footer) && sameLocs(footer, revertToFooter) && footer.ss == old(revertToFooter.ss) && footer.refs == 1
 //@   loop 1: invariant footer.ChildFooters != nil ==> sinceLoop(footer.ChildFooters)
 //@   loop 1: invariant forall c string :: visited(c) ==> has(footer.ChildFooters, c) && sameLocs(footer.ChildFooters[c], revertToFooter.ChildFooters[c])
 //@   loop 1: invariant forall c string :: has(footer.ChildFooters, c) ==> visited(c)
@@ -1055,6 +1057,7 @@ package moss
 //@   ensures @name r1 == nil ==> r0.fileName == fileName && r0.refs == 1
 //@   loop 1: modifies ioFailed
 //@   loop 1: invariant !ioFailed && pos <= 4611686018427387904 && fref.file != nil
+//@   loop 1: decreases pos
 //@   loop 2: modifies ioFailed
 //@   loop 2: invariant !ioFailed && pos <= 4611686018427387904 && fref.file != nil
 
@@ -1412,7 +1415,7 @@ package moss
 // one critical section, and wakes the persister when it does; a base section
 // that is still being persisted is never replaced.
 //@ func (m *collection) mergerNotifyPersister()
-//@   props C13 C16 C04 C01 C03
+//@   props C13 C16 C04 C01 C03 C20
 //@   attr obligations lock-inv region guarded lock wait
 //@   attr waits-observe-stop stopCh
 //@   requires m != nil && m.options != nil && !held(m.m) && m.stats != nil
@@ -1501,7 +1504,7 @@ package moss
 // (which installs the stack as the new middle section): it must be given
 // exactly mid ++ top.
 //@ func (m *collection) snapshot(skip uint32, cb func(*segmentStack), gotLock bool) (*segmentStack, int, int, int, int)
-//@   props C01 C02 C03 C13 C11 C16 C20
+//@   props C01 C02 C03 C13 C11 C16 C20 C10
 //@   attr obligations ensures call-requires
 //@   attr only-labels shape lock noCallback concat lower mergerShape hasLock
 //@   attr callback cb collection.runMerger$3
